@@ -1,83 +1,783 @@
 (* Property monitors: the properties' own statements as executable checks over the implementation's observed trace
-   (operation, accepted?, accounts left behind), independent of the model's transition functions.
-   The view V is the last observed content of every account seen so far.  Executable definitions only. *)
+   (operation, accepted?, accounts left behind), independent of the model's processors.
+   The view V is the last observed content of every account seen so far; a ghost state G records the history.
+   Executable definitions only. *)
 From DZ Require Import Base Keys Merkle BurnRate Shares Swap_Ring State World SwapDeq RD Passport Swap Exec Corr.
 
 (* a violation: step number, the account concerned, a clause number and a witness value *)
 Definition viol := (N * key * N * N)%type.
-
-Definition dist_of (a : acct) : option (dist * list N) :=
-  match data a with DDist d t => if key_eqb (owner a) KRd then Some (d, t) else None | _ => None end.
-Definition collectible (d : dist) : N := d_total_debt d - d_uncollectible d.
+Definition clauses := list (key * N * N).
+Definition chk (b : bool) (k : key) (clause w : N) : clauses := if b then [] else [(k, clause, w)].
 
 Section Mon.
-Variable step_check : view -> obs -> list (key * N * N).    (* per-step clauses: (account, clause, witness) *)
-Fixpoint mon_go (V : view) (tr : list obs) (i : N) : option viol :=
+Context {G : Type}.
+Variable step : G -> view -> obs -> G * clauses.
+Fixpoint mon_go (g : G) (V : view) (tr : list obs) (i : N) : option viol :=
   match tr with
   | [] => None
   | ((o, ok, post) as ob) :: tl =>
-      match step_check V ob with
+      let '(g', cs) := step g V ob in
+      match cs with
       | (k, c, w) :: _ => Some (i, k, c, w)
-      | [] => mon_go (vupd V post) tl (i + 1)
+      | [] => mon_go g' (vupd V post) tl (i + 1)
       end
   end.
 End Mon.
+Definition mon_run {G} (step : G -> view -> obs -> G * clauses) (g0 : G) (tr : list robs) : option viol :=
+  mon_go step g0 [] (expand [] tr) 0.
+Definition stateless (f : view -> obs -> clauses) : unit -> view -> obs -> unit * clauses := fun _ V ob => (tt, f V ob).
 
-(* the instruction a single-instruction transaction carries *)
-Definition single_rd (o : op) : option (rd_ix * list meta) :=
+(* ---- reading the trace ---- *)
+Definition dist_of (a : acct) : option (dist * list N) :=
+  match data a with DDist d t => if key_eqb (owner a) KRd then Some (d, t) else None | _ => None end.
+Definition config_of (a : acct) : option rd_config :=
+  match data a with DConfig c => if key_eqb (owner a) KRd then Some c else None | _ => None end.
+Definition journal_of (a : acct) : option journal :=
+  match data a with DJournal j => if key_eqb (owner a) KRd then Some j else None | _ => None end.
+Definition deposit_of (a : acct) : option deposit :=
+  match data a with DDeposit d => if key_eqb (owner a) KRd then Some d else None | _ => None end.
+Definition contrib_of (a : acct) : option contrib :=
+  match data a with DContrib c => if key_eqb (owner a) KRd then Some c else None | _ => None end.
+Definition token_of (a : acct) : option token_acct :=
+  match data a with DToken t => if key_eqb (owner a) KToken then Some t else None | _ => None end.
+Definition tok_amount (a : acct) : N := match token_of a with Some t => t_amount t | None => 0 end.
+Definition mint_supply (a : acct) : N := match data a with DMint m => m_supply m | _ => 0 end.
+Definition ppconfig_of (a : acct) : option pp_config :=
+  match data a with DPpConfig c => if key_eqb (owner a) KPassport then Some c else None | _ => None end.
+Definition request_of (a : acct) : option access_request :=
+  match data a with DAccessReq r => if key_eqb (owner a) KPassport then Some r else None | _ => None end.
+Definition collectible (d : dist) : N := d_total_debt d - d_uncollectible d.
+
+Definition is_tx (o : op) : bool := match o with OTx _ => true | _ => false end.
+(* the single instruction of a transaction, unwrapping harness CPI wrappers; `via_cpi` tells whether it was wrapped *)
+Fixpoint unwrap (d : ixdata) (ms : list meta) : ixdata * list meta * bool :=
+  match d with
+  | IxRogueCpi inner => let '(d', ms', _) := unwrap inner (tl ms) in (d', ms', true)
+  | _ => (d, ms, false) end.
+Definition single (o : op) : option (key * ixdata * list meta * bool * tx) :=
   match o with
   | OTx t => match tx_ixs t with
-             | [i] => match i_data i with IxRd r => if key_eqb (i_prog i) KRd then Some (r, i_metas i) else None | _ => None end
+             | [i] => let '(d, ms, cpi) := unwrap (i_data i) (i_metas i) in
+                      Some ((if cpi then nthk (i_metas i) 0 else i_prog i), d, ms, cpi, t)
              | _ => None end
   | _ => None end.
-Definition is_tx (o : op) : bool := match o with OTx _ => true | _ => false end.
+Definition single_rd (o : op) : option (rd_ix * list meta * tx) :=
+  match single o with Some (KRd, IxRd r, ms, _, t) => Some (r, ms, t) | _ => None end.
+Definition single_pp (o : op) : option (pp_ix * list meta * bool * tx) :=
+  match single o with Some (KPassport, IxPassport r, ms, cpi, t) => Some (r, ms, cpi, t) | _ => None end.
+Definition post_of (V : view) (post : list (key * acct)) (k : key) : acct :=
+  match lookup k post with Some a => a | None => vget V k end.
+Definition changed (V : view) (post : list (key * acct)) : list key :=
+  map fst (filter (fun '(k, a) => negb (acct_eqb (vget V k) a)) post).
+Definition signed (t : tx) (k : key) : bool := msg_signer t k.
 
-(* ---- C11: from rewards finalization on, lamports >= rent(size) + fee x (contributors - distributed) ---- *)
-Definition c11_account (k : key) (a : acct) : list (key * N * N) :=
+(* bits of a bitmap range of the distribution's remaining data *)
+Definition range_bytes (tail : list N) (s e : N) : list N := firstn (N.to_nat (e - s)) (skipn (N.to_nat s) tail).
+Definition bit_of (tail : list N) (s e idx : N) : bool :=
+  (idx / 8 <? e - s) && N.testbit (nth (N.to_nat (s + idx / 8)) tail 0) (idx mod 8).
+Fixpoint popcount8 (fuel : nat) (b : N) : N := match fuel with O => 0 | S f => (b mod 2) + popcount8 f (b / 2) end.
+Definition popcount (l : list N) : N := sumN (map (popcount8 8) l).
+Definition subset_bits (a b : list N) : bool :=        (* every bit of a is set in b, byte-wise *)
+  forallb (fun '(x, y) => N.land x y =? x) (combine a b).
+Definition ranges_disjoint (s1 e1 s2 e2 : N) : bool := (e1 <=? s1) || (e2 <=? s2) || (e1 <=? s2) || (e2 <=? s1).
+
+(* ================= C11 ================= *)
+Definition c11_account (k : key) (a : acct) : clauses :=
   match dist_of a with
   | Some (d, _) =>
       if d_rewards_final d then
         let need := rent (alen a) + d_relay d * (d_total_contributors d - d_distributed_count d) in
-        if need <=? lamports a then [] else [(k, 1, need - lamports a)]
+        chk (need <=? lamports a) k 1 (need - lamports a)
       else []
   | None => [] end.
-Definition c11_step (V : view) (ob : obs) : list (key * N * N) :=
+Definition c11_step (V : view) (ob : obs) : clauses :=
   let '(o, ok, post) := ob in
   if negb (ok && is_tx o) then [] else
   flat_map (fun '(k, a) => c11_account k a) post ++
   match single_rd o with
-  | Some (RFinalizeRewards, ms) =>
-      (* clause 2: the payer is debited exactly fee x contributors plus the rent top-up of the grown account *)
+  | Some (RFinalizeRewards, ms, _) =>
       let dk := nthk ms 1 in let pk := nthk ms 2 in
-      match dist_of (vget V dk), lookup dk post, lookup pk post with
-      | Some (d0, t0), Some a1, Some p1 =>
-          let p0 := vget V pk in
+      match dist_of (vget V dk) with
+      | Some (d0, t0) =>
+          let a1 := post_of V post dk in
           let want := d_relay d0 * d_total_contributors d0 + (rent (alen a1) - lamports (vget V dk)) in
           if key_eqb pk dk then [] else
-          if lamports p0 - lamports p1 =? want then [] else [(pk, 2, want)]
-      | _, _, _ => [] end
-  | Some (RDistributeRewards _ _ _, ms) =>
-      (* clause 3: the relayer receives exactly the fee snapshotted at creation; the distribution pays it *)
+          chk (lamports (vget V pk) - lamports (post_of V post pk) =? want) pk 2 want
+      | None => [] end
+  | Some (RDistributeRewards _ _ _, ms, _) =>
       let dk := nthk ms 1 in let rk := nthk ms 5 in
-      match dist_of (vget V dk), lookup dk post, lookup rk post with
-      | Some (d0, _), Some a1, Some r1 =>
+      match dist_of (vget V dk) with
+      | Some (d0, _) =>
           if key_eqb rk dk then [] else
-          (if lamports r1 - lamports (vget V rk) =? d_relay d0 then [] else [(rk, 3, d_relay d0)]) ++
-          (if lamports (vget V dk) - lamports a1 =? d_relay d0 then [] else [(dk, 4, d_relay d0)])
-      | _, _, _ => [] end
+          chk (lamports (post_of V post rk) - lamports (vget V rk) =? d_relay d0) rk 3 (d_relay d0) ++
+          chk (lamports (vget V dk) - lamports (post_of V post dk) =? d_relay d0) dk 4 (d_relay d0)
+      | None => [] end
   | _ => [] end.
-Definition mon_C11 (tr : list robs) : option viol := mon_go c11_step [] (expand [] tr) 0.
+Definition mon_C11 := mon_run (stateless c11_step) tt.
 
-(* ---- C12: rewards finalization with the null root succeeds only when there is nothing to distribute ---- *)
-Definition c12_step (V : view) (ob : obs) : list (key * N * N) :=
+(* ================= C12 ================= *)
+Definition c12_step (V : view) (ob : obs) : clauses :=
   let '(o, ok, post) := ob in
   if negb (ok && is_tx o) then [] else
   flat_map (fun '(k, a) =>
     match dist_of a, dist_of (vget V k) with
     | Some (d, _), Some (d0, _) =>
         if d_rewards_final d && negb (d_rewards_final d0) && hash_eqb (d_rewards_root d) null_hash then
-          (if collectible d =? 0 then [] else [(k, 1, collectible d)]) ++
-          (if d_prepaid_2z d =? 0 then [] else [(k, 2, d_prepaid_2z d)])
+          chk (collectible d =? 0) k 1 (collectible d) ++ chk (d_prepaid_2z d =? 0) k 2 (d_prepaid_2z d)
         else []
     | _, _ => [] end) post.
-Definition mon_C12 (tr : list robs) : option viol := mon_go c12_step [] (expand [] tr) 0.
+Definition mon_C12 := mon_run (stateless c12_step) tt.
+
+(* ================= C01 ================= *)
+(* ghost: settled leaves (distribution, index, paid?, amount) *)
+Definition g01 := list (key * N * bool * N).
+Definition settled (g : g01) (dk : key) (idx : N) : bool := existsb (fun '(k, i, _, _) => key_eqb k dk && (i =? idx)) g.
+Definition paid_sum (g : g01) (dk : key) : N := sumN (map (fun '(k, _, p, a) => if key_eqb k dk && p then a else 0) g).
+Definition count_of (g : g01) (dk : key) (paid : bool) : N :=
+  sumN (map (fun '(k, _, p, _) => if key_eqb k dk && Bool.eqb p paid then 1 else 0) g).
+Definition c01_dist_consistent (g : g01) (k : key) (a : acct) : clauses :=
+  match dist_of a with
+  | Some (d, t) =>
+      let db := range_bytes t (d_debt_start d) (d_debt_end d) in
+      let wb := range_bytes t (d_wo_start d) (d_wo_end d) in
+      chk (popcount db =? d_payments_count d + d_writeoff_count d) k 10 (popcount db) ++
+      chk (popcount wb =? d_writeoff_count d) k 11 (popcount wb) ++
+      chk (subset_bits wb db || (d_debt_end d <=? d_debt_start d)) k 12 0 ++
+      chk (ranges_disjoint (d_debt_start d) (d_debt_end d) (d_rew_start d) (d_rew_end d) &&
+           ranges_disjoint (d_debt_start d) (d_debt_end d) (d_wo_start d) (d_wo_end d) &&
+           ranges_disjoint (d_rew_start d) (d_rew_end d) (d_wo_start d) (d_wo_end d)) k 13 0 ++
+      chk (d_debt_end d <=? N.of_nat (length t)) k 14 0 ++
+      chk (d_payments_count d =? count_of g k true) k 15 (count_of g k true) ++
+      chk (d_writeoff_count d =? count_of g k false) k 16 (count_of g k false) ++
+      chk (d_collected_sol d =? paid_sum g k) k 17 (paid_sum g k)
+  | None => [] end.
+Definition c01_step (g : g01) (V : view) (ob : obs) : g01 * clauses :=
+  let '(o, ok, post) := ob in
+  if negb (ok && is_tx o) then (g, []) else
+  (* SOL leaves a deposit only through a successful payment naming it *)
+  let leak := flat_map (fun '(k, a) =>
+      match deposit_of (vget V k) with
+      | Some _ => if lamports a <? lamports (vget V k) then
+                    match single_rd o with
+                    | Some (RPayDebt _ _, ms, _) => chk (key_eqb (nthk ms 2) k) k 1 0
+                    | _ => [(k, 1, lamports (vget V k) - lamports a)] end
+                  else []
+      | None => [] end) post in
+  let '(g', cs) :=
+    match single_rd o with
+    | Some (RPayDebt amount p, ms, _) =>
+        let dk := nthk ms 1 in let pk := nthk ms 2 in let jk := nthk ms 3 in
+        match dist_of (vget V dk), deposit_of (vget V pk), leaf_index p with
+        | Some (d0, t0), Some dp, Some idx =>
+            let a1 := post_of V post pk in
+            (g ++ [(dk, idx, true, amount)],
+             chk (negb (settled g dk idx)) dk 2 idx ++
+             chk (d_debt_final d0) dk 3 0 ++
+             chk (hash_eqb (root_from_leaf p PRE_DEBT (LDebt (dp_node dp) amount)) (d_debt_root d0)) dk 4 idx ++
+             chk (lamports (vget V pk) - lamports a1 =? amount) pk 5 amount ++
+             chk ((lamports (post_of V post jk) - lamports (vget V jk) =? amount) || key_eqb jk pk) jk 6 amount ++
+             chk (rent (alen a1) <=? lamports a1) pk 7 (lamports a1) ++
+             match dist_of (post_of V post dk) with
+             | Some (d1, t1) => chk (bit_of t1 (d_debt_start d1) (d_debt_end d1) idx) dk 8 idx
+             | None => [(dk, 8, idx)] end)
+        | _, _, _ => (g, [(dk, 9, 0)]) end
+    | Some (RWriteOff amount p, ms, _) =>
+        let dk := nthk ms 2 in
+        match leaf_index p with
+        | Some idx => (g ++ [(dk, idx, false, amount)], chk (negb (settled g dk idx)) dk 2 idx)
+        | None => (g, [(dk, 9, 1)]) end
+    | _ => (g, []) end in
+  (g', leak ++ cs ++ flat_map (fun '(k, a) => c01_dist_consistent g' k a) post).
+Definition mon_C01 := mon_run c01_step [].
+
+(* ================= C02 / C03: reward distribution ================= *)
+(* ghost: distributed leaves (distribution, index) *)
+Definition g02 := list (key * N).
+Definition distributed (g : g02) (dk : key) (idx : N) : bool := existsb (fun '(k, i) => key_eqb k dk && (i =? idx)) g.
+Fixpoint dedup_keys (l : list key) : list key :=
+  match l with [] => [] | k :: tl => if existsb (key_eqb k) tl then dedup_keys tl else k :: dedup_keys tl end.
+(* expected per-ATA credit: the sum over the recipient entries that name this ATA *)
+Definition expected_credit (recips : list (key * N)) (remainder : N) (ata : key) : N :=
+  sumN (map (fun '(r, s) => if key_eqb (KAta r KMint) ata then s * remainder / 10000 else 0) recips).
+Definition c02_step (g : g02) (V : view) (ob : obs) : g02 * clauses :=
+  let '(o, ok, post) := ob in
+  if negb (ok && is_tx o) then (g, []) else
+  (* 2Z leaves a distribution's custody account only through a reward distribution of that distribution *)
+  let leak := flat_map (fun '(k, a) =>
+      match k with
+      | KTok2z (KRdDist e) =>
+          if tok_amount a <? tok_amount (vget V k) then
+            match single_rd o with
+            | Some (RDistributeRewards _ _ _, ms, _) => chk (key_eqb (nthk ms 1) (KRdDist e)) k 1 e
+            | _ => [(k, 1, tok_amount (vget V k) - tok_amount a)] end
+          else []
+      | _ => [] end) post in
+  let '(g', cs) :=
+    match single_rd o with
+    | Some (RDistributeRewards us ebr p, ms, _) =>
+        let dk := nthk ms 1 in let ck := nthk ms 2 in let tk := nthk ms 3 in
+        match dist_of (vget V dk), contrib_of (vget V ck), leaf_index p, dist_of (post_of V post dk) with
+        | Some (d0, t0), Some cr, Some idx, Some (d1, t1) =>
+            let total := d_prepaid_2z d0 + d_swept_2z d0 in
+            let share := us * total / 1000000000 in
+            let rate := N.max ebr (d_cbr d0) in
+            let burn_floor := rate * share / 1000000000 in
+            let remainder := share - burn_floor in
+            let recips := cr_recipients cr in
+            let atas := dedup_keys (map (fun '(r, _) => KAta r KMint) recips) in
+            let credited := sumN (map (fun a => tok_amount (post_of V post a) - tok_amount (vget V a)) atas) in
+            let burned := mint_supply (vget V KMint) - mint_supply (post_of V post KMint) in
+            (g ++ [(dk, idx)],
+             chk (negb (distributed g dk idx)) dk 2 idx ++
+             chk (negb (bit_of t0 (d_rew_start d0) (d_rew_end d0) idx)) dk 3 idx ++
+             chk (bit_of t1 (d_rew_start d1) (d_rew_end d1) idx) dk 4 idx ++
+             chk (d_swept d0) dk 5 0 ++
+             chk (hash_eqb (root_from_leaf p PRE_REWARD (LReward (cr_service cr) us ebr)) (d_rewards_root d0)) dk 6 idx ++
+             chk (key_eqb tk (KTok2z dk)) tk 7 0 ++
+             (* exactly floor(unit_share x total / 10^9) leaves custody; all of it is transferred or burned *)
+             chk (tok_amount (vget V tk) - tok_amount (post_of V post tk) =? share) tk 8 share ++
+             chk (credited + burned =? share) dk 9 (credited + burned) ++
+             chk (d_distributed_2z d1 =? d_distributed_2z d0 + credited) dk 10 credited ++
+             chk (d_burned_2z d1 =? d_burned_2z d0 + burned) dk 11 burned ++
+             chk (d_distributed_count d1 =? d_distributed_count d0 + 1) dk 12 0 ++
+             (* C03: burn floor, exact recipient amounts into the canonical ATAs, at least one recipient *)
+             chk (burn_floor <=? burned) dk 20 burn_floor ++
+             chk (negb (Nat.eqb (length recips) 0)) ck 21 0 ++
+             flat_map (fun a => chk (tok_amount (post_of V post a) - tok_amount (vget V a) =? expected_credit recips remainder a) a 22
+                                    (expected_credit recips remainder a)) atas ++
+             flat_map (fun '(i, (r, _)) => chk (key_eqb (nthk ms (7 + i)) (KAta r KMint)) (nthk ms (7 + i)) 23 0)
+                      (combine (seq 0 (length recips)) recips) ++
+             (* nobody else receives tokens: every other observed token account did not gain *)
+             flat_map (fun '(k, a) => if existsb (key_eqb k) atas then [] else
+                                     chk (tok_amount a <=? tok_amount (vget V k)) k 24 (tok_amount a)) post)
+        | _, _, _, _ => (g, [(dk, 19, 0)]) end
+    | _ => (g, []) end in
+  (* cumulative outflow never exceeds what was collected (trees with total share <= 100%) *)
+  let cap := flat_map (fun '(k, a) => match dist_of a with
+      | Some (d, _) => if d_swept d then chk (d_distributed_2z d + d_burned_2z d <=? d_prepaid_2z d + d_swept_2z d) k 13 (d_distributed_2z d + d_burned_2z d) else []
+      | None => [] end) post in
+  (g', leak ++ cs ++ cap).
+Definition mon_C02 := mon_run c02_step [].
+(* clauses 20-24 belong to C03; the driver attributes by clause number (mon_C03 is mon_C02 filtered) *)
+
+(* ================= C04: lifecycle forward only; finalized figures immutable; gates ================= *)
+(* ghost: the clock (OSetClock) *)
+Definition c04_step (clk : N) (V : view) (ob : obs) : N * clauses :=
+  let '(o, ok, post) := ob in
+  let clk' := match o with OSetClock t => t | _ => clk end in
+  if negb (ok && is_tx o) then (clk', []) else
+  let mono := flat_map (fun '(k, a) =>
+    match dist_of (vget V k), dist_of a with
+    | Some (d0, _), Some (d1, _) =>
+        chk (implb (d_debt_final d0) (d_debt_final d1)) k 1 0 ++
+        chk (implb (d_rewards_final d0) (d_rewards_final d1)) k 2 0 ++
+        chk (implb (d_swept d0) (d_swept d1)) k 3 0 ++
+        chk (implb (d_writeoff_enabled d0) (d_writeoff_enabled d1)) k 4 0 ++
+        chk (d_distributed_count d0 <=? d_distributed_count d1) k 5 0 ++
+        (if d_debt_final d0 then
+           chk ((d_total_validators d0 =? d_total_validators d1) && (d_total_debt d0 =? d_total_debt d1) &&
+                hash_eqb (d_debt_root d0) (d_debt_root d1)) k 6 0 else []) ++
+        (if d_rewards_final d0 then
+           chk ((d_total_contributors d0 =? d_total_contributors d1) && hash_eqb (d_rewards_root d0) (d_rewards_root d1)) k 7 0 else [])
+    | _, _ => [] end) post in
+  let gates :=
+    match single_rd o with
+    | Some (ix, ms, _) =>
+        let dist_at_pos (i : nat) := dist_of (vget V (nthk ms i)) in
+        let cfg := config_of (vget V (nthk ms 0)) in
+        match ix with
+        | RPayDebt _ _ => match dist_at_pos 1%nat with Some (d, _) => chk (d_debt_final d) (nthk ms 1) 10 0 | None => [] end
+        | REnableWriteOff => match dist_at_pos 1%nat with Some (d, _) => chk (d_debt_final d && negb (d_writeoff_enabled d)) (nthk ms 1) 11 0 | None => [] end
+        | RFinalizeRewards =>
+            match dist_at_pos 1%nat, cfg with
+            | Some (d, _), Some c =>
+                chk (d_debt_final d && negb (d_rewards_final d)) (nthk ms 1) 12 0 ++
+                chk (negb (c_min_epochs c =? 0) && (d_epoch d + c_min_epochs c <=? c_next_epoch c)) (nthk ms 1) 13 (d_epoch d) ++
+                chk (negb (d_calc_allowed_ts d =? 0) && (d_calc_allowed_ts d <=? clk)) (nthk ms 1) 14 clk
+            | _, _ => [] end
+        | RSweep => match dist_at_pos 1%nat with Some (d, _) => chk (d_rewards_final d && negb (d_swept d)) (nthk ms 1) 15 0 | None => [] end
+        | RDistributeRewards _ _ _ => match dist_at_pos 1%nat with Some (d, _) => chk (d_swept d) (nthk ms 1) 16 0 | None => [] end
+        | RConfigureDebt _ _ _ | RFinalizeDebt =>
+            match dist_at_pos 2%nat with Some (d, _) =>
+              chk (negb (d_debt_final d)) (nthk ms 2) 17 0 ++
+              chk (negb (d_calc_allowed_ts d =? 0) && (d_calc_allowed_ts d <=? clk)) (nthk ms 2) 18 clk | None => [] end
+        | RConfigureRewards _ _ =>
+            match dist_at_pos 2%nat with Some (d, _) =>
+              chk (negb (d_rewards_final d)) (nthk ms 2) 19 0 ++
+              chk (negb (d_calc_allowed_ts d =? 0) && (d_calc_allowed_ts d <=? clk)) (nthk ms 2) 18 clk | None => [] end
+        | RWriteOff _ _ => match dist_at_pos 2%nat with Some (d, _) => chk (d_debt_final d && d_writeoff_enabled d) (nthk ms 2) 20 0 | None => [] end
+        | _ => [] end
+    | None => [] end in
+  (clk', mono ++ gates).
+Definition mon_C04 := mon_run c04_step 0.
+
+(* ================= C15: consecutive, paced creation; immutable snapshots ================= *)
+Definition c15_step (clk : N) (V : view) (ob : obs) : N * clauses :=
+  let '(o, ok, post) := ob in
+  let clk' := match o with OSetClock t => t | _ => clk end in
+  if negb (ok && is_tx o) then (clk', []) else
+  let snap := flat_map (fun '(k, a) =>
+    match dist_of (vget V k), dist_of a with
+    | Some (d0, _), Some (d1, _) =>
+        chk ((d_epoch d0 =? d_epoch d1) && fee_eqb (d_fees d0) (d_fees d1) && (d_relay d0 =? d_relay d1) &&
+             (d_cbr d0 =? d_cbr d1) && (d_calc_allowed_ts d0 =? d_calc_allowed_ts d1)) k 1 (d_epoch d0)
+    | _, _ => [] end) post in
+  let create :=
+    match single_rd o with
+    | Some (RInitializeDistribution, ms, t) =>
+        let ck := nthk ms 0 in let acc := nthk ms 1 in let dk := nthk ms 3 in let tk := nthk ms 4 in
+        let jk := nthk ms 7 in let ata := nthk ms 9 in
+        match config_of (vget V ck), config_of (post_of V post ck), dist_of (post_of V post dk) with
+        | Some c0, Some c1, Some (d1, t1) =>
+            let e := c_next_epoch c0 in
+            let waiting := match token_of (vget V ata) with Some tt_ => t_amount tt_ | None => 0 end in
+            chk (key_eqb acc (c_debt_accountant c0) && signed t acc) acc 2 0 ++
+            chk (negb (c_paused c0)) ck 3 0 ++
+            chk (key_eqb dk (KRdDist e) && (d_epoch d1 =? e)) dk 4 e ++
+            chk (c_next_epoch c1 =? e + 1) ck 5 e ++
+            chk (match dist_of (vget V dk) with None => true | Some _ => false end) dk 6 e ++
+            chk (negb (c_init_grace_min c0 =? 0) && (c_last_init_ts c0 + c_init_grace_min c0 * 60 <=? clk)) ck 7 clk ++
+            chk (c_last_init_ts c1 =? clk) ck 8 clk ++
+            chk (negb (c_calc_grace_min c0 =? 0) && negb (fee_eqb (c_fees c0) fee_default) && negb (c_relay c0 =? 0) &&
+                 negb (next (c_burn c0) =? 0)) ck 9 0 ++
+            chk (fee_eqb (d_fees d1) (c_fees c0) && (d_relay d1 =? c_relay c0) && (d_cbr d1 =? next (c_burn c0)) &&
+                 (d_calc_allowed_ts d1 =? clk + c_calc_grace_min c0 * 60)) dk 10 e ++
+            chk (key_eqb ata (KAta jk KMint) && key_eqb tk (KTok2z dk)) ata 11 0 ++
+            chk ((d_prepaid_2z d1 =? waiting) && (tok_amount (post_of V post tk) =? waiting) &&
+                 ((waiting =? 0) || (tok_amount (post_of V post ata) =? 0))) dk 12 waiting
+        | _, _, _ => [(dk, 13, 0)] end
+    | _ => [] end in
+  (clk', snap ++ create).
+Definition mon_C15 := mon_run c15_step 0.
+
+(* ================= C10: write-offs ================= *)
+Definition c10_step (V : view) (ob : obs) : clauses :=
+  let '(o, ok, post) := ob in
+  if negb (ok && is_tx o) then [] else
+  flat_map (fun '(k, a) => match dist_of a with Some (d, _) => chk (d_uncollectible d <=? d_total_debt d) k 1 (d_uncollectible d) | None => [] end) post ++
+  match single_rd o with
+  | Some (RWriteOff amount p, ms, t) =>
+      let ck := nthk ms 0 in let acc := nthk ms 1 in let dk := nthk ms 2 in let pk := nthk ms 3 in let tk := nthk ms 4 in
+      match config_of (vget V ck), dist_of (vget V dk), deposit_of (vget V pk), dist_of (vget V tk), leaf_index p with
+      | Some c, Some (d0, t0), Some dp, Some (tg0, _), Some idx =>
+          let dep := vget V pk in
+          chk (key_eqb acc (c_debt_accountant c) && signed t acc) acc 2 0 ++
+          chk (d_writeoff_enabled d0 && d_debt_final d0) dk 3 0 ++
+          chk (negb (bit_of t0 (d_debt_start d0) (d_debt_end d0) idx) && negb (bit_of t0 (d_wo_start d0) (d_wo_end d0) idx)) dk 4 idx ++
+          chk (hash_eqb (root_from_leaf p PRE_DEBT (LDebt (dp_node dp) amount)) (d_debt_root d0)) dk 5 idx ++
+          chk (lamports dep - rent (alen dep) <? amount) pk 6 (lamports dep) ++
+          chk (d_epoch d0 <=? d_epoch tg0) tk 7 (d_epoch tg0) ++
+          chk (d_debt_final tg0 && negb (d_swept tg0)) tk 8 0 ++
+          match dist_of (post_of V post tk), deposit_of (post_of V post pk) with
+          | Some (tg1, _), Some dp1 =>
+              chk (d_uncollectible tg1 =? d_uncollectible tg0 + amount) tk 9 amount ++
+              chk (dp_written_off dp1 =? dp_written_off dp + amount) pk 10 amount
+          | _, _ => [(tk, 11, 0)] end ++
+          (* touches no lamports and no tokens *)
+          flat_map (fun '(k, a) => chk ((lamports a =? lamports (vget V k)) && (tok_amount a =? tok_amount (vget V k))) k 12 (lamports a)) post
+      | _, _, _, _, _ => [(dk, 13, 0)] end
+  | Some (REnableWriteOff, ms, _) =>
+      match config_of (vget V (nthk ms 0)), dist_of (vget V (nthk ms 1)) with
+      | Some c, Some (d0, _) =>
+          chk (negb (c_writeoff_activation c =? 0) && (c_writeoff_activation c <=? c_next_epoch c)) (nthk ms 0) 14 (c_writeoff_activation c) ++
+          chk (d_debt_final d0 && negb (d_writeoff_enabled d0)) (nthk ms 1) 15 0
+      | _, _ => [] end
+  | _ => [] end.
+Definition mon_C10 := mon_run (stateless c10_step) tt.
+
+(* ================= C16: recipient tables; manager assignment ================= *)
+Definition table_valid (l : list (key * N)) : bool :=
+  (Nat.leb 1 (length l)) && (Nat.leb (length l) 8) &&
+  forallb (fun '(k, s) => negb (key_eqb k default_key) && negb (s =? 0)) l && (sumN (map snd l) =? 10000).
+Definition c16_step (V : view) (ob : obs) : clauses :=
+  let '(o, ok, post) := ob in
+  if negb (ok && is_tx o) then [] else
+  flat_map (fun '(k, a) => match contrib_of a with
+     | Some cr => chk (match cr_recipients cr with [] => true | l => table_valid l end) k 1 0 ++
+                  (* the table / manager / flag of a record change only through the two instructions below *)
+                  match contrib_of (vget V k), single_rd o with
+                  | Some cr0, Some (RSetRewardsManager _, _, _) | Some cr0, Some (RConfigureContributor _, _, _) => []
+                  | Some cr0, _ => chk (contrib_eqb cr0 cr) k 2 0
+                  | None, _ => [] end
+     | None => [] end) post ++
+  match single_rd o with
+  | Some (RConfigureContributor s, ms, t) =>
+      let crk := nthk ms 1 in let mgr := nthk ms 2 in
+      match contrib_of (vget V crk), contrib_of (post_of V post crk) with
+      | Some cr0, Some cr1 =>
+          chk (key_eqb mgr (cr_manager cr0) && signed t mgr) mgr 3 0 ++
+          match s with
+          | CSRecipients l => chk (table_valid l) crk 4 0 ++ chk (list_eqb keyN_eqb (cr_recipients cr1) l) crk 5 0 ++
+                              chk (key_eqb (cr_manager cr1) (cr_manager cr0) && Bool.eqb (cr_blocked cr1) (cr_blocked cr0)) crk 6 0
+          | CSBlock b => chk (Bool.eqb (cr_blocked cr1) b && list_eqb keyN_eqb (cr_recipients cr1) (cr_recipients cr0) &&
+                              key_eqb (cr_manager cr1) (cr_manager cr0)) crk 7 0
+          end
+      | _, _ => [(crk, 8, 0)] end
+  | Some (RSetRewardsManager k, ms, t) =>
+      let ck := nthk ms 0 in let cm := nthk ms 1 in let crk := nthk ms 2 in
+      match config_of (vget V ck), contrib_of (vget V crk), contrib_of (post_of V post crk) with
+      | Some c, Some cr0, Some cr1 =>
+          chk (key_eqb cm (c_contributor_manager c) && signed t cm) cm 9 0 ++
+          chk (negb (cr_blocked cr0)) crk 10 0 ++
+          chk (key_eqb (cr_manager cr1) k && list_eqb keyN_eqb (cr_recipients cr1) (cr_recipients cr0) &&
+               Bool.eqb (cr_blocked cr1) (cr_blocked cr0)) crk 11 0
+      | _, _, _ => [(crk, 12, 0)] end
+  | _ => [] end.
+Definition mon_C16 := mon_run (stateless c16_step) tt.
+
+(* ================= C05: sweeps in epoch order, once, exact accounting ================= *)
+Definition fills_of (a : acct) : option ring := match data a with DFills r => Some r | _ => None end.
+Definition c05_step (V : view) (ob : obs) : clauses :=
+  let '(o, ok, post) := ob in
+  if negb (ok && is_tx o) then [] else
+  (* after a sweep the uncollectible debt can no longer change; the pointer never moves except by a sweep *)
+  flat_map (fun '(k, a) =>
+    match dist_of (vget V k), dist_of a with
+    | Some (d0, _), Some (d1, _) => if d_swept d0 then chk (d_uncollectible d1 =? d_uncollectible d0) k 1 (d_uncollectible d1) else []
+    | _, _ => [] end ++
+    match journal_of (vget V k), journal_of a, single_rd o with
+    | Some j0, Some j1, Some (RSweep, _, _) => []
+    | Some j0, Some j1, _ => chk (j_next_sweep j1 =? j_next_sweep j0) k 2 (j_next_sweep j1)
+    | _, _, _ => [] end) post ++
+  match single_rd o with
+  | Some (RSweep, ms, _) =>
+      let ck := nthk ms 0 in let dk := nthk ms 1 in let jk := nthk ms 2 in let fk := nthk ms 5 in
+      let tk := nthk ms 7 in let sd := nthk ms 9 in
+      match config_of (vget V ck), dist_of (vget V dk), journal_of (vget V jk), dist_of (post_of V post dk), journal_of (post_of V post jk) with
+      | Some c, Some (d0, _), Some j0, Some (d1, _), Some j1 =>
+          let debt := collectible d0 in
+          chk (negb (d_swept d0) && d_rewards_final d0 && d_swept d1) dk 3 0 ++
+          chk ((j_next_sweep j0 =? d_epoch d0) && (j_next_sweep j1 =? d_epoch d0 + 1)) jk 4 (j_next_sweep j0) ++
+          if debt =? 0 then
+            chk ((j_swapped_sol j1 =? j_swapped_sol j0) && (j_swap_dest_balance j1 =? j_swap_dest_balance j0) &&
+                 (d_swept_2z d1 =? d_swept_2z d0)) jk 5 0 ++
+            flat_map (fun '(k, a) => chk ((tok_amount a =? tok_amount (vget V k)) && (lamports a =? lamports (vget V k))) k 6 0) post
+          else
+            let z := d_swept_2z d1 in
+            chk (debt <=? j_swapped_sol j0) jk 7 debt ++
+            chk (j_swapped_sol j1 =? j_swapped_sol j0 - debt) jk 8 debt ++
+            chk (key_eqb tk (KTok2z dk) && key_eqb sd (KTok2z KRdSwapAuth)) tk 9 0 ++
+            chk (tok_amount (post_of V post tk) =? tok_amount (vget V tk) + z) tk 10 z ++
+            chk (tok_amount (vget V sd) =? tok_amount (post_of V post sd) + z) sd 11 z ++
+            chk (j_swap_dest_balance j0 =? j_swap_dest_balance j1 + z) jk 12 z ++
+            (* exactly what the configured swap program returns for exactly that SOL amount *)
+            match c_swap_program c, data (vget V fk) with
+            | KSwapMock, DFills r =>
+                match q_dequeue (abs r) debt with
+                | Some (_, zq) => chk (z =? zq) fk 13 zq
+                | None => [(fk, 13, 0)] end
+            | KRogue _, DScript (Some (RTriple a b _)) => chk ((a =? debt) && (z =? b)) fk 14 b
+            | _, _ => [(fk, 15, 0)] end
+      | _, _, _, _, _ => [(dk, 16, 0)] end
+  | _ => [] end.
+Definition mon_C05 := mon_run (stateless c05_step) tt.
+
+(* ================= C06: journal SOL custody ================= *)
+(* ghost: (SOL paid in by validators, collectible debt of swept distributions) *)
+Definition swap_buy_of (o : op) : option (key * N * N * list meta * tx) :=      (* swap program, 2Z, SOL *)
+  match single o with
+  | Some (KSwapMock, IxSwap (SBuySol z sol), ms, _, t) =>
+      Some (KSwapMock, z, sol, [nth 5 ms (mk default_key false false); nth 6 ms (mk default_key false false);
+                                nth 7 ms (mk default_key false false); nth 8 ms (mk default_key false false);
+                                nth 2 ms (mk default_key false false); nth 3 ms (mk default_key false false)], t)
+  | Some (KRogue n, IxRogueBuy z sol, ms, _, t) =>
+      Some (KRogue n, z, sol, [nth 4 ms (mk default_key false false); nth 5 ms (mk default_key false false);
+                               nth 6 ms (mk default_key false false); nth 7 ms (mk default_key false false);
+                               nth 1 ms (mk default_key false false); nth 2 ms (mk default_key false false)], t)
+  | _ => None end.
+Definition c06_step (g : N * N) (V : view) (ob : obs) : (N * N) * clauses :=
+  let '(o, ok, post) := ob in
+  if negb (ok && is_tx o) then (g, []) else
+  let '(paid_in, swept_debt) := g in
+  let g' := match single_rd o with
+            | Some (RPayDebt amount _, _, _) => (paid_in + amount, swept_debt)
+            | Some (RSweep, ms, _) => match dist_of (vget V (nthk ms 1)) with Some (d0, _) => (paid_in, swept_debt + collectible d0) | None => g end
+            | _ => g end in
+  let inv := flat_map (fun '(k, a) =>
+    match journal_of a with
+    | Some j =>
+        chk (rent (alen a) + j_total_sol j <=? lamports a) k 1 (lamports a) ++
+        (if key_eqb k KRdJournal then chk (fst g' =? j_total_sol j + j_swapped_sol j + snd g') k 2 (fst g') else []) ++
+        (* SOL leaves the journal only through a swap-program withdrawal *)
+        (if lamports a <? lamports (vget V k) then
+           match swap_buy_of o with
+           | Some (_, _, sol, _, _) => chk (lamports (vget V k) - lamports a =? sol) k 3 sol
+           | None => [(k, 3, lamports (vget V k) - lamports a)] end
+         else [])
+    | None => [] end) post in
+  let wd :=
+    match swap_buy_of o with
+    | Some (swap, z, sol, ms, _) =>
+        let ck := nthk ms 0 in let wa := nthk ms 1 in let jk := nthk ms 2 in let dest := nthk ms 3 in
+        let mint := nthk ms 4 in let sd := nthk ms 5 in
+        match config_of (vget V ck), journal_of (vget V jk), journal_of (post_of V post jk) with
+        | Some c, Some j0, Some j1 =>
+            chk (negb (c_paused c) && key_eqb (c_swap_program c) swap && key_eqb wa (KWithdrawAuth swap)) wa 4 0 ++
+            chk (key_eqb mint KMint && key_eqb sd (KTok2z KRdSwapAuth)) sd 5 0 ++
+            chk (sol <=? j_total_sol j0) jk 6 sol ++
+            chk ((j_total_sol j1 =? j_total_sol j0 - sol) && (j_swapped_sol j1 =? j_swapped_sol j0 + sol) &&
+                 (j_swap_dest_balance j1 =? j_swap_dest_balance j0 + z) && (j_lifetime_2z j1 =? j_lifetime_2z j0 + z)) jk 7 sol ++
+            chk (tok_amount (post_of V post sd) =? tok_amount (vget V sd) + z) sd 8 z ++
+            chk (key_eqb dest jk || match lookup dest post with None => true | Some a => lamports a =? lamports (vget V dest) + sol end) dest 9 sol
+        | _, _, _ => [(jk, 10, 0)] end
+    | None =>
+        (* a bare top-level WithdrawSol never succeeds: there is no PDA signature at the top level *)
+        match single_rd o with Some (RWithdrawSol a, ms, _) => [(nthk ms 2, 11, a)] | _ => [] end
+    end in
+  (g', inv ++ wd).
+Definition mon_C06 := mon_run c06_step (0, 0).
+
+(* ================= C07: privileged actions need the current role's signature ================= *)
+Inductive role := RoleUpgrade (prog : key) | RoleAdmin | RoleDebt | RoleRewards | RoleContribMgr | RoleRewardsMgr
+                | RolePpAdmin | RolePpSentinel.
+(* (role, position of the config / record account, position of the presented authority) *)
+Definition role_of_rd (i : rd_ix) : option (role * nat * nat) :=
+  match i with
+  | RSetAdmin _ | RMigrate => Some (RoleUpgrade KRd, 0%nat, 1%nat)
+  | RConfigureProgram _ => Some (RoleAdmin, 0%nat, 1%nat)
+  | RInitializeDistribution | RConfigureDebt _ _ _ | RFinalizeDebt | RWriteOff _ _ => Some (RoleDebt, 0%nat, 1%nat)
+  | RConfigureRewards _ _ => Some (RoleRewards, 0%nat, 1%nat)
+  | RSetRewardsManager _ => Some (RoleContribMgr, 0%nat, 1%nat)
+  | RConfigureContributor _ => Some (RoleRewardsMgr, 1%nat, 2%nat)
+  | _ => None end.
+Definition role_of_pp (i : pp_ix) : option (role * nat * nat) :=
+  match i with
+  | PSetAdmin _ => Some (RoleUpgrade KPassport, 0%nat, 1%nat)
+  | PConfigureProgram _ => Some (RolePpAdmin, 0%nat, 1%nat)
+  | PGrantAccess | PDenyAccess => Some (RolePpSentinel, 0%nat, 1%nat)
+  | _ => None end.
+Definition holder (V : view) (r : role) (rec : key) : option key :=
+  match r with
+  | RoleUpgrade p => if key_eqb rec (KProgData p) then match data (vget V rec) with DProgData (Some a) => Some a | _ => None end else None
+  | RoleAdmin => option_map c_admin (config_of (vget V rec))
+  | RoleDebt => option_map c_debt_accountant (config_of (vget V rec))
+  | RoleRewards => option_map c_rewards_accountant (config_of (vget V rec))
+  | RoleContribMgr => option_map c_contributor_manager (config_of (vget V rec))
+  | RoleRewardsMgr => option_map cr_manager (contrib_of (vget V rec))
+  | RolePpAdmin => option_map pc_admin (ppconfig_of (vget V rec))
+  | RolePpSentinel => option_map pc_sentinel (ppconfig_of (vget V rec))
+  end.
+Definition c07_step (V : view) (ob : obs) : clauses :=
+  let '(o, ok, post) := ob in
+  if negb (is_tx o) then [] else
+  if negb ok then
+    (* a refused transaction changes nothing *)
+    flat_map (fun '(k, a) => chk (acct_eqb (vget V k) a) k 1 0) post
+  else
+    let check (r : option (role * nat * nat)) (ms : list meta) (t : tx) : clauses :=
+      match r with
+      | Some (rl, rp, ap) =>
+          let auth := nthk ms ap in
+          match holder V rl (nthk ms rp) with
+          | Some h => chk (key_eqb auth h) auth 2 0 ++ chk (signed t auth) auth 3 0 ++
+                      chk (negb (key_eqb auth default_key)) auth 4 0
+          | None => [(nthk ms rp, 5, 0)] end
+      | None => [] end in
+    match single o with
+    | Some (KRd, IxRd i, ms, _, t) => check (role_of_rd i) ms t
+    | Some (KPassport, IxPassport i, ms, _, t) => check (role_of_pp i) ms t
+    | _ => [] end.
+Definition mon_C07 := mon_run (stateless c07_step) tt.
+
+(* ================= C08: paused => only administration and bootstrap ================= *)
+Definition rd_pause_exempt (i : rd_ix) : bool :=
+  match i with
+  | RInitializeProgram | RMigrate | RSetAdmin _ | RConfigureProgram _ | RInitializeJournal | RInitializeContributor _
+  | RInitializeDeposit _ | RInitializeSwapDestination | RVerifyRoot _ _ => true
+  | _ => false end.
+Definition pp_pause_exempt (i : pp_ix) : bool :=
+  match i with PInitializeProgram | PSetAdmin _ | PConfigureProgram _ => true | _ => false end.
+Definition c08_step (V : view) (ob : obs) : clauses :=
+  let '(o, ok, post) := ob in
+  if negb (ok && is_tx o) then [] else
+  match o with
+  | OTx t =>
+      flat_map (fun i =>
+        let '(d, ms, _) := unwrap (i_data i) (i_metas i) in
+        match d with
+        | IxRd r => match config_of (vget V KRdConfig) with
+                    | Some c => chk (negb (c_paused c) || rd_pause_exempt r) KRdConfig 1 (rd_tag r)
+                    | None => [] end
+        | IxPassport p => match ppconfig_of (vget V KPpConfig) with
+                          | Some c => chk (negb (pc_paused c) || pp_pause_exempt p) KPpConfig 2 (pp_tag p) ++
+                                      match p with PRequestAccess _ => chk (negb (pc_request_paused c)) KPpConfig 3 0 | _ => [] end
+                          | None => [] end
+        | IxSwap (SBuySol _ _) | IxRogueBuy _ _ =>
+                    match config_of (vget V KRdConfig) with Some c => chk (negb (c_paused c)) KRdConfig 4 0 | None => [] end
+        | _ => [] end) (tx_ixs t)
+  | _ => [] end.
+Definition mon_C08 := mon_run (stateless c08_step) tt.
+
+(* ================= C09: identity of every trusted account; no re-initialisation ================= *)
+Definition uninit (V : view) (k : key) : bool := match data (vget V k) with DEmpty => true | _ => false end.
+Definition canon_key (a : acct) : option key :=     (* the canonical address of a typed account, from its content *)
+  if key_eqb (owner a) KRd then
+    match data a with
+    | DConfig _ => Some KRdConfig | DJournal _ => Some KRdJournal | DDist d _ => Some (KRdDist (d_epoch d))
+    | DDeposit d => Some (KRdDeposit (dp_node d)) | DContrib c => Some (KRdContrib (cr_service c)) | _ => None end
+  else if key_eqb (owner a) KPassport then
+    match data a with DPpConfig _ => Some KPpConfig | DAccessReq r => Some (KPpRequest (ar_service r)) | _ => None end
+  else None.
+(* positions that must hold exactly this key *)
+Definition expect_rd (V : view) (i : rd_ix) (ms : list meta) : list (N * key) :=
+  let k (n : N) := nthk ms (N.to_nat n) in
+  match i with
+  | RInitializeProgram => [(1, KRdConfig); (2, KTok2z KRdConfig); (3, KMint); (4, KToken)]
+  | RSetAdmin _ | RMigrate => [(0, KProgData KRd); (2, KRdConfig)]
+  | RConfigureProgram _ => [(0, KRdConfig)]
+  | RInitializeJournal => [(1, KRdJournal); (2, KTok2z KRdJournal); (3, KMint); (4, KToken)]
+  | RInitializeDistribution =>
+      let e := match config_of (vget V (k 0)) with Some c => c_next_epoch c | None => 0 end in
+      [(0, KRdConfig); (3, KRdDist e); (4, KTok2z (KRdDist e)); (5, KMint); (6, KToken); (7, KRdJournal);
+       (8, KTok2z KRdJournal); (9, KAta KRdJournal KMint)]
+  | RConfigureDebt _ _ _ | RFinalizeDebt | RConfigureRewards _ _ => [(0, KRdConfig)]
+  | RFinalizeRewards | REnableWriteOff => [(0, KRdConfig)]
+  | RDistributeRewards _ _ _ =>
+      let recips := match contrib_of (vget V (k 2)) with Some cr => cr_recipients cr | None => [] end in
+      [(0, KRdConfig); (3, KTok2z (k 1)); (4, KMint); (6, KToken)] ++
+      map (fun '(n, (r, _)) => (7 + N.of_nat n, KAta r KMint)) (combine (seq 0 (length recips)) recips)
+  | RInitializeContributor svc => [(1, KRdContrib svc)]
+  | RSetRewardsManager _ | RConfigureContributor _ => [(0, KRdConfig)]
+  | RVerifyRoot _ _ => []
+  | RInitializeDeposit node => [(0, KRdDeposit node)]
+  | RPayDebt _ _ => [(0, KRdConfig); (3, KRdJournal)]
+  | RWriteOff _ _ => [(0, KRdConfig)]
+  | RInitializeSwapDestination => [(0, KRdConfig); (2, KRdSwapAuth); (3, KTok2z KRdSwapAuth); (4, KMint); (5, KToken)]
+  | RSweep =>
+      let sp := match config_of (vget V (k 0)) with Some c => c_swap_program c | None => default_key end in
+      [(0, KRdConfig); (2, KRdJournal); (6, sp); (7, KTok2z (k 1)); (8, KRdSwapAuth); (9, KTok2z KRdSwapAuth)]
+  | RWithdrawSol _ =>
+      let sp := match config_of (vget V (k 0)) with Some c => c_swap_program c | None => default_key end in
+      [(0, KRdConfig); (1, KWithdrawAuth sp); (2, KRdJournal)]
+  end.
+(* positions that must hold a typed account of the program (owner + tag) sitting at its canonical address *)
+Definition typed_rd (i : rd_ix) : list N :=
+  match i with
+  | RSetAdmin _ | RMigrate => [2]
+  | RConfigureProgram _ => [0]
+  | RInitializeDistribution => [0; 7]
+  | RConfigureDebt _ _ _ | RFinalizeDebt | RConfigureRewards _ _ => [0; 2]
+  | RFinalizeRewards | REnableWriteOff => [0; 1]
+  | RDistributeRewards _ _ _ => [0; 1; 2]
+  | RSetRewardsManager _ => [0; 2]
+  | RConfigureContributor _ => [0; 1]
+  | RVerifyRoot _ _ => [0]
+  | RPayDebt _ _ => [0; 1; 2; 3]
+  | RWriteOff _ _ => [0; 2; 3; 4]
+  | RInitializeSwapDestination => [0]
+  | RSweep => [0; 1; 2]
+  | RWithdrawSol _ => [0; 2]
+  | _ => [] end.
+Definition init_target_rd (i : rd_ix) : list N :=      (* accounts that must have been uninitialised *)
+  match i with
+  | RInitializeProgram => [1; 2] | RInitializeJournal => [1; 2] | RInitializeDistribution => [3; 4]
+  | RInitializeContributor _ => [1] | RInitializeDeposit _ => [0] | RInitializeSwapDestination => [3]
+  | _ => [] end.
+Definition expect_pp (V : view) (i : pp_ix) (ms : list meta) : list (N * key) :=
+  match i with
+  | PInitializeProgram => [(1, KPpConfig)]
+  | PSetAdmin _ => [(0, KProgData KPassport); (2, KPpConfig)]
+  | PConfigureProgram _ => [(0, KPpConfig)]
+  | PRequestAccess m => [(0, KPpConfig); (2, KPpRequest (access_mode_service m))]
+  | PGrantAccess => [(0, KPpConfig)] ++ match request_of (vget V (nthk ms 2%nat)) with Some r => [(3, ar_beneficiary r)] | None => [] end
+  | PDenyAccess => [(0, KPpConfig)]
+  end.
+Definition typed_pp (i : pp_ix) : list N :=
+  match i with PSetAdmin _ => [2] | PConfigureProgram _ => [0] | PRequestAccess _ => [0]
+             | PGrantAccess | PDenyAccess => [0; 2] | _ => [] end.
+Definition init_target_pp (i : pp_ix) : list N :=
+  match i with PInitializeProgram => [1] | PRequestAccess _ => [2] | _ => [] end.
+Definition c09_step (V : view) (ob : obs) : clauses :=
+  let '(o, ok, post) := ob in
+  if negb (is_tx o) then [] else
+  if negb ok then flat_map (fun '(k, a) => chk (acct_eqb (vget V k) a) k 1 0) post else
+  let go (exp : list (N * key)) (typed inits : list N) (ms : list meta) : clauses :=
+    flat_map (fun '(n, k) => chk (key_eqb (nthk ms (N.to_nat n)) k) (nthk ms (N.to_nat n)) 2 n) exp ++
+    flat_map (fun n => let k := nthk ms (N.to_nat n) in
+                       match canon_key (vget V k) with
+                       | Some ck => chk (key_eqb ck k) k 3 n
+                       | None => [(k, 4, n)] end) typed ++
+    flat_map (fun n => chk (uninit V (nthk ms (N.to_nat n))) (nthk ms (N.to_nat n)) 5 n) inits in
+  match single o with
+  | Some (KRd, IxRd i, ms, _, _) => go (expect_rd V i ms) (typed_rd i) (init_target_rd i) ms
+  | Some (KPassport, IxPassport i, ms, _, _) => go (expect_pp V i ms) (typed_pp i) (init_target_pp i) ms
+  | _ => [] end.
+Definition mon_C09 := mon_run (stateless c09_step) tt.
+
+(* ================= C17 / C18: passport ================= *)
+Definition sum_lamports (V : view) (post : list (key * acct)) (pre : bool) : N :=
+  sumN (map (fun k => lamports (if pre then vget V k else post_of V post k)) (dedup_keys (map fst post))).
+Definition c17_step (V : view) (ob : obs) : clauses :=
+  let '(o, ok, post) := ob in
+  if negb (ok && is_tx o) then [] else
+  match single_pp o with
+  | Some (ix, ms, cpi, t) =>
+      (* total lamports are conserved by every passport instruction *)
+      chk (sum_lamports V post true =? sum_lamports V post false) KPpConfig 1 (sum_lamports V post false) ++
+      match ix with
+      | PRequestAccess mode =>
+          let payer := nthk ms 1 in let rk := nthk ms 2 in
+          match ppconfig_of (vget V (nthk ms 0)), request_of (post_of V post rk) with
+          | Some c, Some r =>
+              let a1 := post_of V post rk in
+              chk (key_eqb rk (KPpRequest (access_mode_service mode))) rk 2 0 ++
+              chk (rent LEN_ACCESS_REQ + pc_deposit c <=? lamports a1) rk 3 (lamports a1) ++
+              chk (key_eqb payer rk || (lamports (vget V payer) - lamports (post_of V post payer) =? lamports a1 - lamports (vget V rk))) payer 4 0 ++
+              chk (key_eqb (ar_beneficiary r) payer && (ar_fee r =? pc_fee c) && key_eqb (ar_service r) (access_mode_service mode)) rk 5 0 ++
+              chk (match request_of (vget V rk) with None => true | Some _ => false end) rk 6 0 ++
+              flat_map (fun '(k, a) => if key_eqb k payer || key_eqb k rk then [] else chk (acct_eqb (vget V k) a) k 7 0) post
+          | _, _ => [(rk, 8, 0)] end
+      | PGrantAccess =>
+          let se := nthk ms 1 in let rk := nthk ms 2 in let ben := nthk ms 3 in
+          match request_of (vget V rk) with
+          | Some r =>
+              let bal := lamports (vget V rk) in let fee := ar_fee r in
+              let gain k := lamports (post_of V post k) - lamports (vget V k) in
+              chk (key_eqb ben (ar_beneficiary r)) ben 9 0 ++
+              chk (lamports (post_of V post rk) =? 0) rk 10 0 ++
+              (if key_eqb se ben then chk (gain se =? bal) se 11 bal
+               else chk (gain se =? fee) se 12 fee ++ chk (gain ben =? bal - fee) ben 13 (bal - fee)) ++
+              chk (fee <=? bal) rk 14 fee ++
+              flat_map (fun '(k, a) => if key_eqb k se || key_eqb k ben || key_eqb k rk then [] else chk (acct_eqb (vget V k) a) k 15 0) post
+          | None => [(rk, 16, 0)] end
+      | PDenyAccess =>
+          let se := nthk ms 1 in let rk := nthk ms 2 in
+          chk (lamports (post_of V post se) - lamports (vget V se) =? lamports (vget V rk)) se 17 (lamports (vget V rk)) ++
+          chk (lamports (post_of V post rk) =? 0) rk 18 0
+      | PConfigureProgram _ =>
+          (* reconfiguration never touches a pending request *)
+          flat_map (fun '(k, a) => match request_of (vget V k) with Some _ => chk (acct_eqb (vget V k) a) k 19 0 | None => [] end) post
+      | _ => [] end
+  | None => [] end.
+Definition mon_C17 := mon_run (stateless c17_step) tt.
+
+Definition c18_step (V : view) (ob : obs) : clauses :=
+  let '(o, ok, post) := ob in
+  if negb (ok && is_tx o) then [] else
+  match single_pp o with
+  | Some (PRequestAccess mode, ms, cpi, t) =>
+      let rk := nthk ms 2 in
+      match ppconfig_of (vget V (nthk ms 0)), request_of (post_of V post rk) with
+      | Some c, Some r =>
+          chk (negb cpi) rk 1 0 ++
+          chk (negb (pc_paused c) && negb (pc_request_paused c)) KPpConfig 2 0 ++
+          chk (negb (pc_deposit c =? 0)) KPpConfig 3 0 ++
+          chk (negb (key_eqb (access_mode_service mode) default_key)) rk 4 0 ++
+          match mode with
+          | AMValidator _ => []
+          | AMValidatorWithBackups _ b => chk (negb (Nat.eqb (length b) 0) && (N.of_nat (length b) <=? pc_backup_limit c)) rk 5 (N.of_nat (length b))
+          end ++
+          chk (access_mode_eqb (ar_mode r) mode) rk 6 0 ++
+          chk (ar_fee r <? pc_deposit c) rk 7 (ar_fee r)
+      | _, _ => [(rk, 8, 0)] end
+  | Some (PConfigureProgram s, ms, _, _) =>
+      match ppconfig_of (post_of V post (nthk ms 0)) with
+      | Some c1 =>
+          match s with
+          | PSAccessRequestDeposit dep fee => chk (negb (dep =? 0) && (fee <? dep)) KPpConfig 9 dep
+          | PSBackupIdsLimit l => chk (negb (l =? 0)) KPpConfig 10 l
+          | _ => [] end ++
+          chk ((pc_deposit c1 =? 0) || (pc_fee c1 <? pc_deposit c1)) KPpConfig 11 (pc_fee c1)
+      | None => [] end
+  | _ => [] end.
+Definition mon_C18 := mon_run (stateless c18_step) tt.
